@@ -979,6 +979,21 @@ func inferPatterns(bound []*Term, body *Term) [][]*Term {
 		memo[t] = r
 		return r
 	}
+	// a trigger must be built from uninterpreted applications, select/store and arithmetic only: z3 rejects (with a
+	// warning that used to be read as a solver error) patterns containing ite or Boolean connectives
+	var clean func(t *Term) bool
+	clean = func(t *Term) bool {
+		switch t.Op {
+		case "ite", "not", "and", "or", "=>", "=", "<", "<=", ">", ">=", "distinct", "forall", "exists":
+			return false
+		}
+		for _, a := range t.Args {
+			if !clean(a) {
+				return false
+			}
+		}
+		return true
+	}
 	cands := map[string][]*Term{}
 	seen := map[string]bool{}
 	var walk func(t *Term)
@@ -991,7 +1006,7 @@ func inferPatterns(bound []*Term, body *Term) [][]*Term {
 			p, q := t.Args[1].Args[0], t.Args[1].Args[1]
 			if len(q.Args) == 0 && isBound[q.Op] && !mentions(p) {
 				k := t.String()
-				if !seen[k] {
+				if !seen[k] && clean(t) {
 					seen[k] = true
 					cands[q.Op] = append(cands[q.Op], t)
 				}
@@ -999,7 +1014,7 @@ func inferPatterns(bound []*Term, body *Term) [][]*Term {
 		}
 		if t.Op == "select" && len(t.Args) == 2 && len(t.Args[1].Args) == 0 && isBound[t.Args[1].Op] && !mentions(t.Args[0]) {
 			k := t.String()
-			if !seen[k] {
+			if !seen[k] && clean(t) {
 				seen[k] = true
 				cands[t.Args[1].Op] = append(cands[t.Args[1].Op], t)
 			}
@@ -1019,7 +1034,7 @@ func inferPatterns(bound []*Term, body *Term) [][]*Term {
 			}
 			if ok {
 				k := t.String()
-				if !seen[k] {
+				if !seen[k] && clean(t) {
 					seen[k] = true
 					cands[which] = append(cands[which], t)
 				}
